@@ -102,6 +102,7 @@ func (c *SumCopyCommand) execute(tow io.Writer) (err error) {
 
 func (c *SumCopyCommand) sumCopyItem(item string, tow io.Writer) error {
 	now := whispertool.TimestampFromStdTime(time.Now())
+	now = verifNow(now)
 	var until whispertool.Timestamp
 	if c.Until == 0 {
 		until = now
